@@ -254,3 +254,52 @@ def check_table_value(env, kind, it, st, v, n, exp, pc=()):
         if nv.val != n:
             return REFUTED, "result has num_vars=%d, expected %d" % (nv.val, n)
     return compare_bits(bits_of_table(words, n), exp, pc)
+
+
+# ----------------------------------------------------------------------------------------------
+# canonical (hashable) form of abstract values, with the two table types normalised
+# ----------------------------------------------------------------------------------------------
+TABLE_ADTS = ("lut::Lut", "static_lut::StaticLut")
+
+
+def canon(v, it, st, depth=0, shape=None):
+    if isinstance(v, W):
+        return ("W", v.width, v.val if v.val is not None else tuple("T" if b is None else b for b in v.bits))
+    if isinstance(v, CS):
+        return ("CS", v.neg, frozenset("T" if b is None else b for b in v.clauses))
+    if isinstance(v, Agg):
+        if v.key in TABLE_ADTS and shape is not None:
+            try:
+                if v.key == "lut::Lut":
+                    words = it.slice_elems(st, v.fields[shape.lut_tab])
+                    nv = v.fields[shape.lut_nv]
+                    return ("Table", canon(nv, it, st), tuple(canon(w, it, st) for w in words))
+                return ("Table", None, tuple(canon(w, it, st) for w in v.fields[shape.slut_tab].elems))
+            except Exception:
+                return ("Top", "table")
+        key = "ITER" if (v.key and v.key.endswith("Iterator") and shape is not None) else v.key
+        return ("Agg", v.kind, key, v.variant, tuple(canon(f, it, st, depth + 1, shape) for f in v.fields))
+    if isinstance(v, Arr):
+        return ("Seq", tuple(canon(f, it, st, depth + 1, shape) for f in v.elems))
+    if isinstance(v, Ptr):
+        if depth > 4:
+            return ("Ptr",)
+        try:
+            if v.sl is not None:
+                return ("Seq", tuple(canon(e, it, st, depth + 1, shape) for e in it.slice_elems(st, v)))
+            return ("Ref", canon(it.read_ptr(st, v), it, st, depth + 1, shape))
+        except Exception:
+            return ("Ptr?",)
+    if isinstance(v, Opaque):
+        return ("Opaque", v.kind, tuple(canon(f, it, st, depth + 1, shape) if isinstance(f, (W, CS, Agg, Arr, Ptr, Opaque, TopV)) else f for f in v.data))
+    if isinstance(v, TopV):
+        return ("Top", v.cause)
+    return ("?", repr(v))
+
+
+def has_top(c):
+    if isinstance(c, (tuple, frozenset, list)):
+        if isinstance(c, tuple) and c and c[0] == "Top":
+            return True
+        return any(has_top(x) for x in c)
+    return c == "T"
